@@ -850,7 +850,7 @@ func unop(fr *frame, instr *ssa.UnOp, x value) value {
 		return symUnop(instr.Op, x)
 	}
 	if p, ok := x.(symElemPtr); ok && instr.Op == token.MUL {
-		return p.load()
+		return p.load(mustDeref(instr.X.Type()))
 	}
 	switch instr.Op {
 	case token.ARROW: // receive
